@@ -1,54 +1,97 @@
 import LospanVerif.Model.Pipeline
+import LospanVerif.Proofs.Counters
 /-
   C07 — a downlink frame counter is never reused within a session.
-  Proved here, for every state: a data downlink is encoded with the counter of the snapshot the
-  encoder carries, the stored counter becomes that value + 1 (16 bit) *before* the frame is
-  handed to the gateway, and a failed counter write stops the encoder before the hand-over.
-  The all-schedules statement does not hold for the code as it stands (the snapshot may be stale:
-  known_findings.json C07); sequential histories and the racing schedules are decided by the
-  pipeline engines (oracle: no (device, NwkSKey, FCnt) twice).
+
+  The encoder takes the counter of a frame from the store (`NextFCntDn`: read, store +1, return the
+  value read, in one transaction under the storage mutex) before the frame exists, and nothing else
+  in the pipeline writes the downlink counter within a session. `issuedDn` is the history of the
+  counters handed out (device, counter) in the current session, up to the 16-bit wrap.
+  The first three theorems hold for EVERY event list: every interleaving of handler, scheduler,
+  sendAt and encoder steps, faults and crashes included.
 -/
 namespace LospanVerif
 namespace Props.C07
-open Model.Pipeline Model.Phy
+open Model.Pipeline Model.Phy Proofs.Counters
 
 def isDataDown (p : PHY) : Prop := p.mhdr.mtype = mtUnconfirmedDataDown ∨ p.mhdr.mtype = mtConfirmedDataDown
 
 theorem not_ja (p : PHY) (h : isDataDown p) : p.mhdr.mtype ≠ mtJoinAccept := by
   rcases h with h | h <;> rw [h] <;> decide
 
-/-- Step 0: the frame is encoded with FCnt := the snapshot's FCntDn. -/
-theorem C07_encodes_with_snapshot_counter (E D : Spec.Rfc4493.BlockFn) (sys : Sys) (p : PHY) (c : Ctx) (hd : isDataDown p) (b : Bytes)
+/-- The counters handed out for device `e`, in the order they were handed out. -/
+def issuedFor (s : Sys) (e : Bytes) : List Nat := (s.issuedDn.filter (fun x => x.1 == e)).map (·.2)
+
+/-- **All schedules.** Within a session the counters handed out for a device strictly increase: no
+    counter is handed out twice, whatever the interleaving, faults and crashes. -/
+theorem C07_issued_strictly_increasing (E D : Spec.Rfc4493.BlockFn) (cfg : Config) (db : DB) (evs : List Event) (e : Bytes) :
+    (issuedFor (run E D cfg (Sys.init db) evs) e).Pairwise (· < ·) :=
+  (cinv_run E D cfg _ evs (CInv.init db)).dnI e
+
+/-- **All schedules.** Every counter handed out is below what the store now holds: it is stored
+    past the counter before any frame carrying it can exist, and stays so (also across a crash). -/
+theorem C07_issued_below_stored (E D : Spec.Rfc4493.BlockFn) (cfg : Config) (db : DB) (evs : List Event)
+    (e : Bytes) (f : Nat) (h : (e, f) ∈ (run E D cfg (Sys.init db) evs).issuedDn) :
+    ∀ d ∈ (run E D cfg (Sys.init db) evs).db.devices, d.eui = e → f < d.fcntDn := by
+  intro d hd hde
+  exact (cinv_run E D cfg _ evs (CInv.init db)).dnB e f h (d.eui, d.fcntDn) (List.mem_map.mpr ⟨d, hd, rfl⟩) hde
+
+/-- …hence the next counter handed out for the device is a new one. -/
+theorem C07_next_is_fresh (E D : Spec.Rfc4493.BlockFn) (cfg : Config) (db : DB) (evs : List Event)
+    (e : Bytes) (db' : DB) (f : Nat) (h : (run E D cfg (Sys.init db) evs).db.nextFCntDn e = some (db', f)) :
+    ∀ f', (e, f') ∈ (run E D cfg (Sys.init db) evs).issuedDn → f' < f := by
+  intro f' hm
+  obtain ⟨_, _, t, ht, hte, htf⟩ := next_views h
+  have := (cinv_run E D cfg _ evs (CInv.init db)).dnB e f' hm t ht hte
+  omega
+
+/-- Step 0 of the encoder: the frame is encoded with exactly the counter the store handed out, the
+    store already holds counter+1, and no frame has left yet. -/
+theorem C07_encodes_with_issued_counter (E D : Spec.Rfc4493.BlockFn) (sys : Sys) (p : PHY) (c : Ctx) (hd : isDataDown p)
+    (db' : DB) (f : Nat) (hn : sys.db.nextFCntDn c.device.eui = some (db', f)) (b : Bytes)
     (henc : encodeMessage E c.device.nwkSKey c.device.appSKey
-      { p with mac := { p.mac with fhdr := { p.mac.fhdr with fcnt := c.device.fcntDn } } } = .ok b) :
-    (stepEncoder E D sys 0 p c [] false).2 =
-      [.encoder 1 { p with mac := { p.mac with fhdr := { p.mac.fhdr with fcnt := c.device.fcntDn } } } c b] := by
+      { p with mac := { p.mac with fhdr := { p.mac.fhdr with fcnt := f } } } = .ok b) :
+    stepEncoder E D sys 0 p c [] false =
+      ({ sys with db := db', issuedDn := noteCounter sys.issuedDn c.device.eui f },
+       [.encoder 1 { p with mac := { p.mac with fhdr := { p.mac.fhdr with fcnt := f } } }
+          { c with device := { c.device with fcntDn := (f + 1) % 65536 } } b]) := by
   have h1 := not_ja p hd
   have hd' : p.mhdr.mtype = mtUnconfirmedDataDown ∨ p.mhdr.mtype = mtConfirmedDataDown := hd
   unfold stepEncoder
   rw [if_neg h1, if_pos hd']
-  simp [henc]
+  simp [hn, henc]
 
-/-- Step 1: the counter is stored past the one just used; only then does step 2 hand the frame over. -/
+/-- The counter is persisted before the hand-over: steps 0 and 1 emit nothing. -/
 theorem C07_persists_before_handover (E D : Spec.Rfc4493.BlockFn) (sys : Sys) (p : PHY) (c : Ctx) (bytes : Bytes) (hd : isDataDown p)
-    (db' : DB) (hw : sys.db.updateState { c.device with fcntDn := (c.device.fcntDn + 1) % 65536 } = some db') :
-    stepEncoder E D sys 1 p c bytes false =
-      ({ sys with db := db' }, [.encoder 2 p { c with device := { c.device with fcntDn := (c.device.fcntDn + 1) % 65536 } } bytes]) ∧
-    (stepEncoder E D sys 1 p c bytes false).1.emitted = sys.emitted := by
+    (fault : Bool) :
+    (stepEncoder E D sys 0 p c bytes fault).1.emitted = sys.emitted ∧ (stepEncoder E D sys 1 p c bytes fault).1.emitted = sys.emitted := by
   have h1 := not_ja p hd
   have hd' : p.mhdr.mtype = mtUnconfirmedDataDown ∨ p.mhdr.mtype = mtConfirmedDataDown := hd
-  unfold stepEncoder
-  rw [if_neg h1, if_pos hd']
-  simp [hw]
+  constructor
+  · unfold stepEncoder
+    rw [if_neg h1, if_pos hd']
+    simp only []
+    repeat' split
+    all_goals rfl
+  · unfold stepEncoder
+    rw [if_neg h1, if_pos hd']
+    simp only []
+    split <;> rfl
 
-/-- A failed (or impossible) counter write ends the encoder: the frame never leaves. -/
+/-- A failed (or impossible) counter fetch ends the encoder: no frame is built, none leaves. -/
 theorem C07_failed_write_no_frame (E D : Spec.Rfc4493.BlockFn) (sys : Sys) (p : PHY) (c : Ctx) (bytes : Bytes) (hd : isDataDown p) :
-    stepEncoder E D sys 1 p c bytes true = (sys, [.done]) := by
+    stepEncoder E D sys 0 p c bytes true = (sys, [.done]) ∧
+    (sys.db.nextFCntDn c.device.eui = none → stepEncoder E D sys 0 p c bytes false = (sys, [.done])) := by
   have h1 := not_ja p hd
   have hd' : p.mhdr.mtype = mtUnconfirmedDataDown ∨ p.mhdr.mtype = mtConfirmedDataDown := hd
-  unfold stepEncoder
-  rw [if_neg h1, if_pos hd']
-  simp
+  constructor
+  · unfold stepEncoder
+    rw [if_neg h1, if_pos hd']
+    simp
+  · intro hn
+    unfold stepEncoder
+    rw [if_neg h1, if_pos hd']
+    simp [hn]
 
 /-- Only step 2 emits, and it emits exactly the bytes encoded in step 0. -/
 theorem C07_handover (E D : Spec.Rfc4493.BlockFn) (sys : Sys) (p : PHY) (c : Ctx) (bytes : Bytes) (hd : isDataDown p) (f : Bool) :
